@@ -21,6 +21,33 @@ import (
 
 // ---- C13: submission retries follow the server's pacing and stop when they should ----
 //
+// Edge / configuration audit (statement clause -> what the code compares -> what is drawn):
+//
+//  "first 200 whose body parses": StatusCode == 200 and json.Unmarshal -> 199, 201, 202, 204, 299 with a
+//    perfectly good body (must come back as errors); 200 with: good, good + white space (parses), {} (parses,
+//    no SCT: PostAndParseWithRetry must return it, AddChain must report it with status and body), "", HTML,
+//    half an object, good cut at every byte, good whose Close fails.
+//  "retries only after ... 408, 429, 503": both neighbours 407|409 428|430 502|504, plus 400 403 404 500 501
+//    505, 3xx that are not followed (300 304 305, and 301-308 WITHOUT Location: final responses in go1.26).
+//  Retry-After: Header.Get == "" | Atoi | RFC1123 -> absent, 0, 1, 2..5, 30, 64, 127|128|129 (cap), 255|256|257,
+//    300, 1000, 86400, 2^31-1, 2^31 (stated bound); IMF-fixdate future / this very second / past; garbage
+//    ("-3" and "+N" parse as integers in Atoi: no lower bound is demanded for them); on 429 and on 503; also on
+//    cut bodies and on method-converted hops (only excuse lateness there).
+//  backoff.set: pending (notBefore.After(now)) vs not, override shorter / equal / longer than the pending
+//    one, multiplier cap 8 -> several submitters on one client, Retry-After around each power of two, the
+//    Logger seam between set() and until().
+//  Context: deadline (50 ms .. 40 h) | cancel event | both | ALREADY cancelled at the call | deadline ALREADY
+//    passed at the call; ends while in flight / in back-off / stalled (not while held in the logger: Go's
+//    select would then choose at random - see seamLogger).
+//  Redirects: 301 302 303 (POST->GET) 307 308, chains of mixed codes, relative / absolute / other-host
+//    Location, missing Location, unparsable Location, and a storm profile that keeps redirecting until
+//    http.Client stops after 10 hops (PostAndParse then holds a response AND an error).
+//  Transport: error before the response, body cut, Body.Close error, stall until http.Client.Timeout
+//    (none | 200 ms | 10 s) or until the caller's context ends.
+//  Configuration read by the code: Options.Logger (seam), PublicKeyDER set | unset (AddChain verifies or not),
+//    UserAgent / Authorization "" | set, base URI with / without trailing slash, http.Client.Timeout.
+//  Not drawn: hc == nil (real network), nil context, Logger == nil (log.Printf to stderr, no seam possible).
+//
 // Real code: client.LogClient.AddChain / AddPreChain and
 // jsonclient.JSONClient.PostAndParseWithRetry over a real http.Client.
 // Simulated: the server (every response is chosen by the driver), the network
@@ -36,13 +63,20 @@ const (
 	offGrid = 500 * time.Microsecond
 )
 
-var c13Kinds = []string{"200bad", "408", "429", "503", "other", "net.err", "net.cut", "redirect", "stall"}
+var c13Kinds = []string{"200bad", "408", "429", "503", "other", "net.err", "net.cut", "redirect", "stall", "200alt", "net.closeerr"}
 
 // per-attempt http.Client.Timeout of the shared client (real deployments use 10 s); all on the
 // millisecond grid, so it never ties with a caller deadline (off the grid)
 var c13Timeouts = []time.Duration{0, 10 * time.Second, 200 * time.Millisecond}
-var c13RAForms = []string{"absent", "0", "1", "30", "1000", "2^31", "int", "date+", "date-", "garbage"}
-var c13Other = []int{400, 403, 404, 500, 501, 502, 201, 300}
+var c13RAForms = []string{"absent", "0", "1", "30", "1000", "2^31", "int", "date+", "date-", "garbage", "date0"}
+
+// statuses that must come back at once: both neighbours of every retried status (407|409, 428|430, 502|504),
+// 2xx other than 200 (199 and 201.., with and without a parsable body), 3xx that http.Client does not follow
+var c13Other = []int{400, 403, 404, 500, 501, 502, 201, 300, 407, 409, 428, 430, 504, 199, 202, 204, 299, 304, 305, 505}
+
+// integer Retry-After values around the edges of the exponential schedule (1 2 4 .. 128 s), of the
+// cap, of 256 s and of the stated bound
+var c13RAInts = []int64{2, 5, 64, 127, 128, 129, 300, 86400, 3, 4, 255, 256, 257, maxRetryAfterS - 1}
 var c13Redirects = []int{307, 308, 301, 302, 303}
 var c13Deadlines = []time.Duration{30 * time.Second, 50 * time.Millisecond, time.Second, 5 * time.Second, 130 * time.Second, 5 * time.Minute, time.Hour, 40 * time.Hour}
 
@@ -55,6 +89,10 @@ type c13Profile struct {
 	CancelW int
 	Timeout time.Duration // http.Client.Timeout of the shared client; 0 = none
 	LogW    int           // weight of letting a parked logger call return (lower = the logger tends to be slow)
+	Storm   bool          // redirect storm: follow-up requests are redirected again until http.Client gives up (10 hops)
+	Keyed   bool          // the client knows the log key (AddChain verifies) or not
+	Slash   bool          // base URI given with a trailing slash
+	Agent   bool          // Options.UserAgent / Options.Authorization set
 }
 
 // model phases of one submitter
@@ -76,7 +114,7 @@ type submitter struct {
 	API int // 0 AddChain, 1 AddPreChain, 2 PostAndParseWithRetry
 	sub *submission
 
-	ctxKind    int // 0 deadline, 1 cancel event, 2 both
+	ctxKind    int // 0 deadline, 1 cancel event, 2 both, 3 already cancelled at the call, 4 deadline already passed at the call
 	deadlineIn time.Duration
 	ctx        context.Context
 	cancel     context.CancelFunc
@@ -123,6 +161,8 @@ type c13World struct {
 	sctTS  uint64
 	wake   chan struct{} // signalled (never blocking) whenever an attempt reaches the transport
 
+	altTS uint64 // timestamp of the SCT in the latest "200alt/ws" body
+
 	// logWho is the submitter whose goroutine the driver has just let run (set before every release
 	// of an attempt or of a timeout report). The client's Logger has no idea who calls it; in stepped
 	// mode only that one goroutine can reach a Printf before the next quiescent point.
@@ -165,6 +205,18 @@ func (w *c13World) Init(s *kernel.Sim) {
 	p.CancelW = t.Intn(3)
 	p.Timeout = c13Timeouts[t.Intn(len(c13Timeouts))]
 	p.LogW = []int{12, 3, 1}[t.Intn(3)]
+	p.Storm = t.Chance(1, 8)
+	if p.Storm { // needs redirects
+		for i, k := range c13Kinds {
+			if k == "redirect" && p.KindW[i] == 0 {
+				p.KindW[i] = 3
+				p.FaultW = min(p.FaultW+3, 8)
+			}
+		}
+	}
+	p.Keyed = !t.Chance(1, 4)
+	p.Slash = t.Chance(1, 3)
+	p.Agent = t.Chance(1, 3)
 
 	w.ctx, w.cancel = context.WithCancel(context.Background())
 	w.wake = make(chan struct{}, 1)
@@ -172,15 +224,25 @@ func (w *c13World) Init(s *kernel.Sim) {
 	w.logKey = logKeyFor("p256", t.Intn(2))
 	w.J, w.F = -1, -1
 	w.sctTS = 946684800000
-	lc, err := client.New("http://log.test/sim", &http.Client{Transport: &transport{s: s, onArrive: w.signalArrival}, Timeout: p.Timeout},
-		jsonclient.Options{PublicKeyDER: w.logKey.SPKI, Logger: seamLogger{w}})
+	opts := jsonclient.Options{Logger: seamLogger{w}}
+	if p.Keyed {
+		opts.PublicKeyDER = w.logKey.SPKI
+	}
+	if p.Agent {
+		opts.UserAgent, opts.Authorization = "verif-sim/1.0", "Bearer sim"
+	}
+	uri := "http://log.test/sim"
+	if p.Slash {
+		uri += "/"
+	}
+	lc, err := client.New(uri, &http.Client{Transport: &transport{s: s, onArrive: w.signalArrival}, Timeout: p.Timeout}, opts)
 	if err != nil {
 		panic("harness: client.New: " + err.Error())
 	}
 	w.lc = lc
 	w.byName = map[string]*submitter{}
 	for i := 0; i < p.N; i++ {
-		sb := &submitter{ID: i, API: t.Intn(3), ctxKind: t.Intn(3), deadlineT: -1, cancelT: -1, E: -1, phase: phIdle}
+		sb := &submitter{ID: i, API: t.Intn(3), ctxKind: []int{0, 1, 2, 0, 1, 2, 0, 1, 2, 3, 4}[t.Intn(11)], deadlineT: -1, cancelT: -1, E: -1, phase: phIdle}
 		sb.Party = fmt.Sprintf("sub%d", i)
 		sb.deadlineIn = c13Deadlines[t.Intn(len(c13Deadlines))] + offGrid
 		sb.sub = w.pki.newSubmission(t, i, sb.API == 1, false)
@@ -203,6 +265,15 @@ func (w *c13World) start(sb *submitter) {
 		sb.deadlineT = sb.startT + sb.deadlineIn
 	case 1:
 		sb.ctx, sb.cancel = context.WithCancel(w.ctx)
+	case 3:
+		sb.ctx, sb.cancel = context.WithCancel(w.ctx)
+		sb.cancel()
+		sb.cancelT = sb.startT
+		s.Probe("ctx.ended-before-call")
+	case 4:
+		sb.ctx, sb.cancel = context.WithDeadline(w.ctx, time.Now().Add(-time.Second))
+		sb.deadlineT = sb.startT // the first instant at which the call can notice
+		s.Probe("ctx.ended-before-call")
 	default:
 		sb.ctx, sb.cancel = context.WithDeadline(w.ctx, time.Now().Add(sb.deadlineIn))
 		sb.deadlineT = sb.startT + sb.deadlineIn
@@ -268,9 +339,31 @@ func (w *c13World) script(sb *submitter, c *rtCall) *served {
 		kind = "net.err" // nothing would ever end a stalled attempt of this submitter
 	}
 	o := &served{Kind: kind, CutAt: -1, Header: http.Header{}}
+	if w.prof.Storm && c.Follow && w.hops(sb) < 12 {
+		kind = "redirect" // keep the chain going until http.Client stops following
+		o.Kind = kind
+	}
 	switch kind {
 	case "stall":
 		o.Stall = true
+	case "200alt":
+		// bodies on the other side of "parses": the correct answer followed by white space (parses, is
+		// the answer), and an empty JSON object (parses as the response structure, is no SCT)
+		o.Status = 200
+		o.Header.Set("Content-Type", "application/json")
+		if t.Chance(1, 2) {
+			good, ts := w.goodBody(sb)
+			o.Body, o.Honest, o.Kind = append(good, "\r\n \t"...), true, "200alt/ws"
+			w.altTS = ts
+		} else {
+			o.Body, o.Parsable, o.Kind = []byte("{}"), true, "200alt/empty-object"
+		}
+	case "net.closeerr":
+		// every byte arrives, then closing the body fails
+		o.CloseErr = true
+		o.Status = []int{500, 503, 200, 404}[t.Intn(4)]
+		o.Body = []byte(fmt.Sprintf("answer %d for %s#%d, connection dies on close", o.Status, sb.Party, c.Idx))
+		o.Kind = fmt.Sprintf("net.closeerr/%d", o.Status)
 	case "200bad":
 		o.Status = 200
 		good, _ := w.goodBody(sb)
@@ -296,7 +389,10 @@ func (w *c13World) script(sb *submitter, c *rtCall) *served {
 		case "2^31":
 			o.RA = strconv.FormatInt(maxRetryAfterS, 10)
 		case "int":
-			o.RA = strconv.Itoa([]int{2, 5, 64, 127, 128, 129, 300, 86400}[t.Intn(8)])
+			o.RA = strconv.FormatInt(c13RAInts[t.Intn(len(c13RAInts))], 10)
+		case "date0":
+			// an HTTP-date that is this very second (already reached, or reached within the second)
+			o.RA = time.Now().UTC().Format(http.TimeFormat)
 		case "date+":
 			d := []time.Duration{time.Second, 2 * time.Second, 30 * time.Second, 200 * time.Second, 24 * time.Hour}[t.Intn(5)]
 			o.RA = time.Now().Add(d).UTC().Format(http.TimeFormat)
@@ -313,8 +409,8 @@ func (w *c13World) script(sb *submitter, c *rtCall) *served {
 	case "other":
 		o.Status = c13Other[t.Intn(len(c13Other))]
 		o.Body = []byte(fmt.Sprintf("refused %d by %s#%d", o.Status, sb.Party, c.Idx))
-		if o.Status == 201 {
-			o.Body, _ = w.goodBody(sb)
+		if o.Status/100 == 2 || o.Status == 199 {
+			o.Body, _ = w.goodBody(sb) // a perfectly good SCT under a status that is not 200
 		}
 		o.Kind = fmt.Sprintf("other/%d", o.Status)
 	case "net.err":
@@ -335,11 +431,26 @@ func (w *c13World) script(sb *submitter, c *rtCall) *served {
 	case "redirect":
 		o.Status = c13Redirects[t.Intn(len(c13Redirects))]
 		o.Header.Set("Location", fmt.Sprintf("%s?hop=%d", c.Path, c.Idx+1))
-		if t.Chance(1, 3) {
-			o.Header.Set("Location", fmt.Sprintf("http://log.test/sim/moved%s?hop=%d", sb.sub.path(), c.Idx+1))
-		}
 		o.Body = []byte("moved")
 		o.Kind = fmt.Sprintf("redirect/%d", o.Status)
+		variant := t.Intn(8)
+		if w.prof.Storm && c.Follow {
+			variant = 0 // keep the chain followable
+		}
+		switch variant {
+		case 1, 2:
+			o.Header.Set("Location", fmt.Sprintf("http://log.test/sim/moved%s?hop=%d", sb.sub.path(), c.Idx+1))
+		case 3:
+			o.Header.Set("Location", fmt.Sprintf("http://other.test/elsewhere%s?hop=%d", sb.sub.path(), c.Idx+1)) // another host
+		case 4:
+			// no Location: http.Client hands the 3xx back as the final response - "every other status"
+			o.Header.Del("Location")
+			o.Kind = fmt.Sprintf("other/%d-without-location", o.Status)
+		case 5:
+			// a Location http.Client cannot parse: it gives up with an error and no response
+			o.Header.Set("Location", "http://[::1")
+			o.Kind = fmt.Sprintf("redirect-unparsable/%d", o.Status)
+		}
 	}
 	return o
 }
@@ -401,10 +512,16 @@ func (w *c13World) answer(p *kernel.Parked, o *served, ts uint64) {
 		sb.phase = phStalled
 	case o.NetErr:
 		sb.phase, sb.L = phRetry, generic()
+	case o.isRedirect() && o.Header.Get("Location") == "http://[::1":
+		// http.Client cannot follow: the client sees an error without a response; retried or returned - not judged
+		sb.phase, sb.L = phEither, generic()
 	case o.isRedirect():
 		// http.Client follows it with a further request in the same instant; should it give up
 		// instead (stdlib behaviour, not judged) the client sees a transport-level error
 		sb.phase, sb.L, sb.followOK = phRetry, generic(), true
+	case o.CloseErr:
+		// the response was there, the connection failed afterwards: a transport error or "that status" - both readings allowed
+		sb.phase, sb.L = phEither, generic()
 	case o.CutAt >= 0:
 		if o.Status == 200 && !conv {
 			sb.phase = phRetry
@@ -416,7 +533,18 @@ func (w *c13World) answer(p *kernel.Parked, o *served, ts uint64) {
 		// a POST that a redirect turned into another method: never success; retried or returned - not judged
 		sb.phase, sb.L = phEither, generic()
 	case o.Status == 200 && o.Honest:
+		if o.Kind == "200alt/ws" {
+			ts = w.altTS
+		}
 		sb.phase, sb.want, sb.wantTS = phRetOK, o, ts
+	case o.Status == 200 && o.Parsable:
+		// parses as the response structure, so the retry loop must hand it back at once; AddChain /
+		// AddPreChain then find no SCT in it and must say so with status and body
+		if sb.API == 2 {
+			sb.phase, sb.want = phRetOK, o
+		} else {
+			sb.phase, sb.want = phRetErr, o
+		}
 	case o.Status == 200:
 		sb.phase, sb.L = phRetry, generic()
 	case o.Status == 408:
@@ -443,7 +571,7 @@ func (w *c13World) answer(p *kernel.Parked, o *served, ts uint64) {
 	s.Logf("server -> %s#%d %s: %s  [model %s E=%v L=%v J=%v]", sb.Party, c.Idx, o.Kind, o, sb.phase, sb.E, sb.L, w.J)
 	if !o.Honest {
 		s.Fault(kindFamily(o.Kind))
-		if o.CutAt < 0 && (o.Status == 429 || o.Status == 503) {
+		if o.CutAt < 0 && !o.CloseErr && (o.Status == 429 || o.Status == 503) {
 			s.Probe("ra." + raForm(o.Kind))
 		}
 	}
@@ -462,8 +590,10 @@ func kindFamily(k string) string {
 		}
 	}
 	switch k {
-	case "net.err", "net.cut":
+	case "net.err", "net.cut", "net.closeerr":
 		return k
+	case "redirect-unparsable":
+		return "net.redirect"
 	case "stall":
 		return "net.stall"
 	case "net.timeout":
@@ -596,6 +726,9 @@ func (w *c13World) Options(s *kernel.Sim) []kernel.Option {
 	}
 	for _, p := range parked {
 		p := p
+		if w.prof.Storm && s.FaultsOn() && p.Info.(*rtCall).Follow && w.hops(w.byName[p.Party]) < 12 {
+			continue // redirect storm: a follow-up request is never answered for good, only redirected on (script option below)
+		}
 		opts = append(opts, kernel.Option{Key: "answer " + p.Key + " -> 200 good", Weight: w.prof.OkW, Apply: func() {
 			sb := w.byName[p.Party]
 			body, ts := w.goodBody(sb)
@@ -633,7 +766,7 @@ func (w *c13World) Options(s *kernel.Sim) []kernel.Option {
 		}
 	}
 	for _, sb := range w.subs {
-		if sb.started && !sb.harvested && sb.ctxKind != 0 && sb.cancelT < 0 && w.prof.CancelW > 0 && !inLog[sb.Party] {
+		if sb.started && !sb.harvested && (sb.ctxKind == 1 || sb.ctxKind == 2) && sb.cancelT < 0 && w.prof.CancelW > 0 && !inLog[sb.Party] {
 			sb := sb
 			opts = append(opts, kernel.Option{Key: "cancel " + sb.Party, Weight: w.prof.CancelW, Apply: func() {
 				sb.cancelT = s.Now()
@@ -751,6 +884,9 @@ func (w *c13World) AfterStep(s *kernel.Sim) {
 				continue
 			}
 			// a new attempt of the retry loop
+			if sb.followOK {
+				s.Probe("redirect.not-followed") // http.Client stopped following (10 hops)
+			}
 			switch sb.phase {
 			case phIdle:
 			case phRetry, phEither:
@@ -840,7 +976,7 @@ func (w *c13World) AfterStep(s *kernel.Sim) {
 				s.Violate("c13.late-return", sb.lastKind, "%s: %s delivered at %v, returned at %v", sb.Party, sb.lastKind, sb.T, retT)
 				return
 			}
-		case phEither, phRetry, phAborted, phFlight, phStalled:
+		case phEither, phRetry, phAborted, phFlight, phStalled, phIdle:
 			if sb.phase == phEither && retT == sb.T && !ended {
 				s.Probe("ret.either-error")
 				break // returned as an error on the spot: allowed, the statement only forbids success
@@ -869,6 +1005,20 @@ func (w *c13World) AfterStep(s *kernel.Sim) {
 		}
 		sb.phase = phDone
 	}
+}
+
+// hops counts the requests of the attempt in progress (1 = the POST itself).
+func (w *c13World) hops(sb *submitter) int {
+	sb.mu.Lock()
+	defer sb.mu.Unlock()
+	n := 0
+	for i := len(sb.Calls) - 1; i >= 0; i-- {
+		n++
+		if !sb.Calls[i].Follow {
+			break
+		}
+	}
+	return n
 }
 
 func lateKey(kind string) string {
